@@ -193,3 +193,44 @@ func VerifC08ReportDot() {
 	vReach("C08.reportdot:composed")
 	vAssert(vAnd(vStrEq(first, second), vStrEq(first, third)), "sched:C08.reportdot.order: the DOT report depends on map iteration order")
 }
+
+func init() { vRegister("VerifC08CallTree", VerifC08CallTree) }
+
+// VerifC08CallTree (property C08): in call-tree mode one function appears as
+// several nodes with identical description; the DOT report must still not
+// depend on map iteration order.
+func VerifC08CallTree() {
+	var fs []*profile.Function
+	var ls []*profile.Location
+	for i, n := range []string{"a", "c", "x", "b", "d"} {
+		f := &profile.Function{ID: uint64(i + 1), Name: n, SystemName: n, Filename: "f.go"}
+		fs = append(fs, f)
+		ls = append(ls, &profile.Location{ID: uint64(i + 1), Line: []profile.Line{{Function: f}}})
+	}
+	build := func() *profile.Profile {
+		return &profile.Profile{
+			SampleType: []*profile.ValueType{{Type: "samples", Unit: "count"}}, PeriodType: &profile.ValueType{Type: "cpu", Unit: "ns"}, Period: 1,
+			Function: fs, Location: ls,
+			Sample: []*profile.Sample{
+				{Location: []*profile.Location{ls[3], ls[2], ls[0]}, Value: []int64{int64(1 + vChoice("w0", 2))}}, // a -> x -> b
+				{Location: []*profile.Location{ls[4], ls[2], ls[1]}, Value: []int64{int64(1 + vChoice("w1", 2))}}, // c -> x -> d
+			},
+		}
+	}
+	compose := func(mode string) string {
+		vMapOrder(mode)
+		rpt := New(build(), &Options{OutputFormat: Dot, CallTree: true, SampleType: "samples", SampleUnit: "count",
+			SampleValue: func(v []int64) int64 { return v[0] }, Title: "t"})
+		var buf bytes.Buffer
+		if err := printDOT(&buf, rpt); err != nil {
+			return "error"
+		}
+		return buf.String()
+	}
+	first := compose("insertion")
+	second := compose("reverse")
+	third := compose("rotate")
+	vMapOrder("")
+	vReach("C08.calltree:composed")
+	vAssert(vAnd(vStrEq(first, second), vStrEq(first, third)), "sched:C08.calltree.order: the call-tree DOT report depends on map iteration order")
+}
